@@ -130,7 +130,9 @@ CLAIMS["C08"] = dict(
          "while clipping one path is read while clipping the next and the scratch containers are empty at every exit ('path by path'); GetLocation's "
          "25-cell table; the side arithmetic (GetAdjacentLocation, HeadingClockwise, AreOpposites, StartLocsAreClockwise) on its whole four-element "
          "domain; GetNextLocation's per-side dispatch on every ordering of the next vertex against the rectangle (first side crossed wins in the "
-         "documented order); GetBounds considers every vertex for min and max; the segment scan starts at the first segment on every path; GetSegmentIntersection's touching cases store an end point that lies on both lines (engine E14).",
+         "documented order); GetBounds considers every vertex for min and max; the segment scan starts at the first segment on every path; GetSegmentIntersection's touching cases store an end point that lies on both "
+         "lines (engine E14) and answer 'touching' exactly when it lies strictly between the other segment's ends, whichever way the side runs "
+         "(48 cells); no point classification compares a coordinate of one axis with a bound of the other.",
     note="The location state machine, corner insertion and TidyEdges (the behaviour for crossing paths) are NOT decided.",
     technique="static analysis: abstract interpretation over orderings + loop-carried-state dataflow",
     design="§3 E3/E2, §4 C08", engine="E3")
